@@ -446,6 +446,10 @@ fn aux_for(r: &mut Rng, n: usize) -> Aux {
 }
 
 /// call one entry point under the monitors
+pub fn call_entry(ctx: &mut Ctx, e: &Entry, kind: &'static str, input: &[u8], a: &Aux, s: &mut String) {
+    call(ctx, e, kind, input, a, s)
+}
+
 fn call(ctx: &mut Ctx, e: &Entry, kind: &'static str, input: &[u8], a: &Aux, s: &mut String) {
     s.clear();
     let f = e.f;
@@ -459,7 +463,7 @@ fn call(ctx: &mut Ctx, e: &Entry, kind: &'static str, input: &[u8], a: &Aux, s: 
                 ctx.max("heap.peak_bytes_per_input_byte_x100", (o.peak * 100 / input.len().max(64)) as u64);
             }
             ctx.max("format.text_bytes", s.len() as u64);
-            if o.peak > bound {
+            if o.peak > bound && alloc::installed() {
                 ctx.violation(
                     format!("c01:heap-bound:{}", e.name),
                     json!({"entry": e.name, "peak_live_bytes": o.peak, "bound": bound, "input_len": input.len(), "aux_len": a.len, "input_hex": hex_short(input)}),
